@@ -1020,3 +1020,59 @@ func (c *Ctx) ruleInsertFresh() {
 	})
 	c.ob("R-INSERTFRESH", "insertPeer:state-written-into-new-node-only", f.Pos(), n > 0 && bad == "", "the membership state is written into "+bad)
 }
+
+// R-KEYPREFIX (C26): the prefix used to list one epoch's stored announcements cannot match another epoch's keys.
+func (c *Ctx) ruleEpochKeyPrefix() {
+	c.doc("R-KEYPREFIX", stateDir+" epoch.go: the key builders write `<epoch decimal><separator><hash>`; the prefix that getDataKeysFromDisk iterates over ends with the epoch number FOLLOWED BY THAT SEPARATOR — a prefix ending in the bare decimal number also matches the keys of epochs 10..19, 100.. (finalising in epoch 1 deletes their persisted announcements)")
+	sp := c.ssaPkg(stateDir)
+	if sp == nil {
+		return
+	}
+	format := func(f *ssa.Function) string {
+		out := ""
+		eachInstr(f, func(_ *ssa.BasicBlock, _ int, in ssa.Instruction) {
+			if call, ok := in.(*ssa.Call); ok && calleeName(&call.Call) == "fmt.Sprintf" {
+				if k, ok := call.Call.Args[0].(*ssa.Const); ok && k.Value != nil {
+					out = strings.Trim(k.Value.ExactString(), "\"")
+				}
+			}
+		})
+		return out
+	}
+	sep := ""
+	for _, name := range []string{"nextEpochDataKey", "nextConfigDataKey"} {
+		f := c.fn(stateDir, name)
+		if f == nil {
+			c.unresolved(stateDir + "." + name)
+			return
+		}
+		fm := format(f)
+		i := strings.Index(fm, "%d")
+		if i < 0 || i+2 >= len(fm) {
+			c.unresolved("format of " + name)
+			return
+		}
+		s := fm[i+2 : i+3]
+		if sep != "" && sep != s {
+			c.ob("R-KEYPREFIX", "key-builders-agree", f.Pos(), false, "the two key builders use different separators")
+			return
+		}
+		sep = s
+	}
+	var lister *ssa.Function
+	for _, f := range allFuncs(c, sp) {
+		if strings.HasPrefix(f.Name(), "getDataKeysFromDisk") && len(f.Blocks) > 0 && f.Parent() == nil {
+			lister = f
+			if f.Origin() != nil {
+				lister = f.Origin()
+			}
+		}
+	}
+	if lister == nil {
+		c.unresolved("getDataKeysFromDisk")
+		return
+	}
+	fm := format(lister)
+	c.ob("R-KEYPREFIX", "getDataKeysFromDisk:prefix-ends-with-separator", lister.Pos(), strings.HasSuffix(fm, "%d"+sep),
+		fmt.Sprintf("the iteration prefix format is %q, the keys are written as <prefix>%%d%s<hash>", fm, sep))
+}
